@@ -599,6 +599,26 @@ theorem cross_zero_dqm_as_coded (label : String) (ubc lbc : Int) (S : Nat) :
           [(s!"slack_{label}_{Nat.log2 S + 1}", 2, [(1, zeroCoefBy dqmZeroCoef ubc S)])] else []) :=
   Pen.dqmSlack_cross_labels label ubc lbc S
 
+/-- **which sums `cross_zero=True` lets through, as coded** (BQM method, `λ > 0`): with the slack coefficients
+    `slackLog2 S ++ [a]` on pairwise distinct fresh labels (what `cross_zero_bqm_as_coded` says is returned, `a = ub_c − S = lb_c`),
+    the slack bits — and only they — can be set so that the added energy is 0 iff `Σaᵢzᵢ ∈ [ub_c − S, ub_c]` or
+    `Σaᵢzᵢ ∈ [ub_c − S − a, ub_c − a]`; for `a = lb_c` the second interval is `[0, S]` (the documented meaning would be `{0}`) -/
+theorem cross_zero_penalty_zero_iff (terms : List (Label × Int)) (lam : Rat) (hlam : 0 < lam) (ubc : Int) (S a : Nat) (hS : 1 ≤ S)
+    (ls : List Label) (hlen : ls.length = (slackLog2 S ++ [a]).length) (hnd : ls.Nodup) (hfresh : ∀ t ∈ terms, t.1 ∉ ls)
+    (z : Label → Int) (hz : Bin01 z) :
+    (∃ z', Bin01 z' ∧ (∀ v, v ∉ ls → z' v = z v) ∧
+      evalBag (toRat z') (eqTermsCy .binary (castTerms (terms ++ ls.zip ((slackLog2 S ++ [a]).map Int.ofNat))) lam (((-ubc : Int)) : Rat)) = 0)
+    ↔ (ubc - S ≤ isum z terms ∧ isum z terms ≤ ubc) ∨ (ubc - S - a ≤ isum z terms ∧ isum z terms ≤ ubc - a) :=
+  Pen.cross_zero_penalty_zero_iff terms lam hlam ubc S a hS ls hlen hnd hfresh z hz
+
+/-- the hypotheses are met by the witness constraint `5 ≤ a + 2b + 3c + 4d ≤ 8`, `cross_zero=True`: labels as returned -/
+example : ([Label.str "slack_c_0", .str "slack_c_1", .str "slack_c_2"].length = (slackLog2 3 ++ [5]).length) ∧
+    [Label.str "slack_c_0", .str "slack_c_1", .str "slack_c_2"].Nodup ∧
+    (∀ t ∈ [(Label.str "a", (1 : Int)), (.str "b", 2), (.str "c", 3), (.str "d", 4)],
+      t.1 ∉ [Label.str "slack_c_0", .str "slack_c_1", .str "slack_c_2"]) ∧
+    (bqmSlack "c" 8 5 3 true).map (·.1) = [Label.str "slack_c_0", .str "slack_c_1", .str "slack_c_2"] := by
+  decide +kernel
+
 /-- the extracted option surface: methods, defaults (`lb = int64 min` stands for −∞), coefficient / guard of `cross_zero` in
     the two implementations (they DIFFER: BQM `ub_c − S` guarded by `> 0`, DQM `ub_c` unguarded) -/
 theorem inequality_options_from_source :
